@@ -3,6 +3,7 @@
 //! (get + allocate + write, or drop the guard). One step = one pool critical section + the thread-local work after it.
 //! `Mutex::lock` is stubbed by "try_lock must succeed" (an uncontended lock in a sequentialised schedule; a
 //! self-deadlock becomes a failed check). Real preemption, data races and >2 threads are outside the claim.
+use crate::check;
 use crate::common::*;
 use bump_scope::alloc::Allocator;
 use bump_scope::{Bump, BumpPool, BumpPoolGuard};
@@ -51,55 +52,55 @@ fn pool_body<const SCHED: u8, const WITH_CAPACITY: bool, const END: u8>() {
             drop(g0);
             None
         };
-        assert!(released() == 0, "C19: returning a guard released a chunk");
+        check!(released() == 0, "C19: returning a guard released a chunk");
         set_budget(1);
         let r1 = if WITH_CAPACITY { pool_ref.try_get_with_capacity(Layout::from_size_align(32, 1).unwrap()) } else { pool_ref.try_get() };
         set_budget(0);
         let Ok(g1) = r1 else { return };
-        assert!(released() == 0, "C19: handing out an arena released a chunk while the pool is alive");
+        check!(released() == 0, "C19: handing out an arena released a chunk while the pool is alive");
         let arena1 = first_chunk(&g1);
         if SCHED == 1 {
-            assert!(arena1 != arena0, "C19: two live guards refer to the same arena");
-            assert!(grants() == 2, "C19: two simultaneously live guards did not get two arenas");
+            check!(arena1 != arena0, "C19: two live guards refer to the same arena");
+            check!(grants() == 2, "C19: two simultaneously live guards did not get two arenas");
         } else {
-            assert!(grants() == 1, "C19: a new arena was created although an idle one was available");
-            assert!(arena1 == arena0, "C19: the idle arena was not re-issued");
+            check!(grants() == 1, "C19: a new arena was created although an idle one was available");
+            check!(arena1 == arena0, "C19: the idle arena was not re-issued");
         }
         let Ok(p1) = g1.allocate(Layout::from_size_align(2, 1).unwrap()) else { return };
         let p1 = p1.cast::<u8>();
         unsafe { p1.as_ptr().write(v1) };
         a1 = addr(p1);
-        assert!(a1 != a0 && a1 != a0 + 1 && a1 + 1 != a0, "C19/C01: allocations made through two guards overlap");
-        assert!(unsafe { (a0 as *const u8).read() } == v0, "C19: data allocated through a guard changed before the pool was reset");
+        check!(a1 != a0 && a1 != a0 + 1 && a1 + 1 != a0, "C19/C01: allocations made through two guards overlap");
+        check!(unsafe { (a0 as *const u8).read() } == v0, "C19: data allocated through a guard changed before the pool was reset");
         if END == 0 {
             core::mem::forget(g0);
             core::mem::forget(g1);
         } else {
             drop(g0);
             drop(g1);
-            assert!(released() == 0, "C19: returning a guard released a chunk");
+            check!(released() == 0, "C19: returning a guard released a chunk");
         }
     }
     if END == 0 {
         return finish();
     }
     let peak = if SCHED == 1 { 2 } else { 1 };
-    assert!(pool.bumps().len() == grants(), "C19: arenas lost or duplicated in the pool");
-    assert!(pool.bumps().len() <= peak, "C19: pool holds more arenas than the peak number of live guards");
-    assert!(unsafe { (a0 as *const u8).read() } == v0 && unsafe { (a1 as *const u8).read() } == v1, "C19: data changed before the pool was reset");
+    check!(pool.bumps().len() == grants(), "C19: arenas lost or duplicated in the pool");
+    check!(pool.bumps().len() <= peak, "C19: pool holds more arenas than the peak number of live guards");
+    check!(unsafe { (a0 as *const u8).read() } == v0 && unsafe { (a1 as *const u8).read() } == v1, "C19: data changed before the pool was reset");
     match END {
         1 => {
             pool.reset_to_start();
-            assert!(live_grants() == grants() && released() == 0, "C19/C05: reset_to_start of the pool released a chunk");
+            check!(live_grants() == grants() && released() == 0, "C19/C05: reset_to_start of the pool released a chunk");
         }
         2 => {
             pool.reset();
-            assert!(live_grants() == grants(), "C19/C05: reset of single-chunk arenas released a chunk");
+            check!(live_grants() == grants(), "C19/C05: reset of single-chunk arenas released a chunk");
         }
         _ => {
             let n = grants();
             drop(core::mem::ManuallyDrop::into_inner(pool));
-            assert!(live_grants() == 0 && released() == n, "C19/C05: dropping the pool did not return every chunk exactly once");
+            check!(live_grants() == 0 && released() == n, "C19/C05: dropping the pool did not return every chunk exactly once");
         }
     }
     finish()
